@@ -890,6 +890,13 @@ func isGroupValue(v ssa.Value) bool {
 			return false
 		case *ssa.Lookup:
 			return isCollection(x.X)
+		case *ssa.Parameter:
+			// a stage function that is handed the group (`assembleDevice(phys, dis, ...)`): the value at its only call site
+			sites, _ := staticCallSitesAny(x.Parent())
+			if len(sites) != 1 || x.Parent().Parent() != nil || paramIndex(x) < 0 || paramIndex(x) >= len(sites[0].Common().Args) {
+				return false
+			}
+			v = sites[0].Common().Args[paramIndex(x)]
 		case *ssa.UnOp:
 			cell, ok := x.X.(*ssa.Alloc)
 			if !ok {
